@@ -102,6 +102,24 @@ CHECKS = {
         text="The sequence of compile_to_ir_using_delta (lex, errors, parse, errors, XML, header, XML) runs on random bytes, mutated corpus with invalid UTF-8/NUL, token soup, exhaustive short token sequences in three contexts, nesting up to 256, density and size stress up to 256 KiB in isolated workers (debug assertions + overflow checks; release for the large ones); every exit state is classified; well-formed shapes must be accepted, injected invalid lexemes rejected, E102/E103 only when a limit is truly exceeded. The same operations are interpreted by Miri on reduced-size inputs reaching every shape (uninitialised reads, out-of-bounds, invalid set_len) and executed under AddressSanitizer on thousands of inputs.",
         note="Miri: default checks, isolation disabled only to read the input files. Known stack overflows on >= 10^4-element lists are listed as findings. 'Terminates' in bounded form.",
         design="5 C15 / 6"),
+    "C16": dict(
+        category="exploration",
+        technique="runtime monitor: three-way tree comparison (generator's own syntax tree, second-generation XML dump decoded by an independent reader, first-generation AST) plus an XML well-formedness checker",
+        text="Generated syntactic modules covering every declaration kind, type form, statement, expression form, precedence level and both list styles in random layouts, and all valid corpus files: the second-generation parser must accept them, its XML must be balanced with no MALFORMED node, and the decoded tree must equal the generator's tree and the first-generation parser's tree (names, flags, types, statement order, operand order, nesting, literal values).",
+        note="Normal form bridges representation only (folded negative literals, concatenated strings decoded by a reference decoder, return label vs keyword, type wrappers). Strings do not start/end with a double quote because the XML dump trims all quotes.",
+        design="5 C16"),
+    "C17": dict(
+        category="exploration",
+        technique="runtime monitor: header XML compared with the expected interface computed from the generator's tree and with the parse of the restricted module; exhaustive public/private patterns",
+        text="For every sequence of up to 3 (quick) / 4 (thorough) declarations over {const, fn, fn head, struct, word} x every public/private mask, plus random larger modules with imports and big bodies, the header extracted by the second-generation front end must equal the public declarations in order with pub cleared and bodies removed, must equal the tree of the module printed with only its public declarations, and must not mention private names or body statements.",
+        note="The header builder is additionally run under Miri through C15's inputs (it writes through MaybeUninit and calls set_len).",
+        design="5 C17"),
+    "C20": dict(
+        category="exploration",
+        technique="runtime monitor: rebuild round trip (parse, rebuild, re-parse, compare trees, rebuild again, compare bytes) over generated modules and the corpus",
+        text="Generated syntactic modules without builtin calls and all corpus files that parse: the rebuilt text must lex and parse without error, its tree must equal the original up to locations and literal spelling/suffix, and a second rebuild must be byte-identical.",
+        note="Two annotation forms of the rebuilder (`Name#?`, `struct#Name`) are a listed finding and are stripped by a keyed, string-aware normalisation so that everything else is still compared.",
+        design="5 C20"),
 }
 
 
